@@ -130,4 +130,50 @@ theorem parseChunkXT_plain (cfg : XCfg) (tab : Nat) (htab : tab > 0) (f : Nat) (
   simp only [parseChunk, hsplit]
   exact parseBlocksXT_plain1 cfg tab htab f state hst refs parent l0 r h
 
+/-! ### searches anchored at line starts, on one line -/
+
+theorem lineSearchAux_noNl {α : Type} (f : Str → Option α) : ∀ (s : Str) (i : Nat), '\n' ∉ s →
+    lineSearchAux f false i s = none := by
+  intro s
+  induction s with
+  | nil => intro i _; simp [lineSearchAux]
+  | cons c r ih =>
+    intro i h
+    have hc : c ≠ '\n' := fun e => h (e ▸ List.mem_cons_self)
+    simp only [lineSearchAux, Bool.false_eq_true, if_false, hc, decide_false]
+    exact ih _ (fun hm => h (List.mem_cons_of_mem _ hm))
+
+theorem lineSearch_line_none {α : Type} (f : Str → Option α) (s : Str) (hnl : '\n' ∉ s) (h0 : f s = none)
+    (hne : s ≠ []) : lineSearch f s = none := by
+  obtain ⟨c, r, rfl⟩ : ∃ c r, s = c :: r := by
+    cases s with
+    | nil => exact absurd rfl hne
+    | cons c r => exact ⟨c, r, rfl⟩
+  have hc : c ≠ '\n' := fun e => hnl (e ▸ List.mem_cons_self)
+  simp only [lineSearch, lineSearchAux, if_true, h0, hc, decide_false]
+  exact lineSearchAux_noNl f r 1 (fun hm => hnl (List.mem_cons_of_mem _ hm))
+
+theorem lineSearch_line_some {α : Type} (f : Str → Option α) (s : Str) (a : α) (h0 : f s = some a) (hne : s ≠ []) :
+    lineSearch f s = some (0, a) := by
+  obtain ⟨c, r, rfl⟩ : ∃ c r, s = c :: r := by
+    cases s with
+    | nil => exact absurd rfl hne
+    | cons c r => exact ⟨c, r, rfl⟩
+  simp only [lineSearch, lineSearchAux, if_true, h0]
+
+
+theorem nlSearchAux_noNl {α : Type} (f : Str → Option α) : ∀ (s : Str) (i : Nat), '\n' ∉ s →
+    nlSearchAux f i s = none := by
+  intro s
+  induction s with
+  | nil => intro i _; rfl
+  | cons c r ih =>
+    intro i h
+    have hc : c ≠ '\n' := fun e => h (e ▸ List.mem_cons_self)
+    simp only [nlSearchAux, hc, if_false]
+    exact ih _ (fun hm => h (List.mem_cons_of_mem _ hm))
+
+theorem defSearch_line_none (b : Str) (hnl : '\n' ∉ b) (h0 : defAt b = none) : defSearch b = none := by
+  simp only [defSearch, nlSearch, h0, nlSearchAux_noNl defAt b 0 hnl]
+
 end MdVerif.RenderX
